@@ -19,8 +19,8 @@ def oracle_dd(run):
     (3) no destructor / callback event of a thread between its acquisition and release of destructionLock;
     (4) callback installed: at most one callback per object unless the callback re-added it; an object destroyed by a
         destroyObjects call that did not throw had its callback before;
-    (5) sizes: size() returns the vector length at its critical section; destroyObjects returns -1 only when its first
-        timed acquisition failed, otherwise a length the vector had at one of the call's own critical sections."""
+    (5) sizes: size() returns the vector length at its critical section; destroyObjects returns -1 exactly when the call never
+        obtained the lock, otherwise a length the vector had at one of the call's own critical sections."""
     evs = list(events(run))
     if not evs or evs[0][1][0] != "cfg":
         return None
@@ -57,7 +57,7 @@ def oracle_dd(run):
             if not st or st[-1]["op"] != t[1]:
                 return "ret %s does not match the thread's innermost call" % t[1]
             st.pop()
-        elif k in ("mlk", "mtf"):
+        elif k in ("mlk", "mtf", "mtl"):
             ok = k == "mlk" or t[2] == "1"
             if top is not None and top.get("first") is None:
                 top["first"] = ok
@@ -119,20 +119,23 @@ def oracle_dd(run):
         if k == "call":
             if t[1] == "dtor":
                 break
-            st.append(dict(op=t[1], lens=[], first=None))
+            st.append(dict(op=t[1], lens=[], first=None, got=False))
             if single:
                 if t[1] in ("add", "addm"):
                     L += 1
                 st[-1]["lens"].append(L)
                 st[-1]["first"] = True
+                st[-1]["got"] = True
         elif k in ("ucb", "pdt"):
-            st.append(dict(op=k, lens=[], first=None))
+            st.append(dict(op=k, lens=[], first=None, got=False))
         elif k in ("uce", "uth", "pde"):
             st.pop()
-        elif k in ("mlk", "mtf") and st:
+        elif k in ("mlk", "mtf", "mtl") and st:
             ok = k == "mlk" or t[2] == "1"
             if st[-1]["first"] is None:
                 st[-1]["first"] = ok
+            if ok:
+                st[-1]["got"] = True
             if ok and st[-1]["op"] in ("add", "addm"):
                 L += 1
         elif k == "mul":
@@ -151,8 +154,10 @@ def oracle_dd(run):
                 return "size() returned %s, vector length at its critical section was %s" % (t[2], f["lens"][-1:])
             if t[1] in ("destroy", "destroyd"):
                 n = int(t[2])
-                if (n == -1) != (f["first"] is False):
-                    return "%s returned %d, first acquisition %s" % (t[1], n, "failed" if f["first"] is False else "succeeded")
+                # size_t(-1) means "gave up without ever getting the lock" - stated on whether the call obtained the lock at
+                # all, not on which of its attempts failed
+                if (n == -1) != (not f.get("got")):
+                    return "%s returned %d although the call %s" % (t[1], n, "obtained the lock" if f.get("got") else "never obtained the lock")
                 if n != -1 and n not in f["lens"]:
                     return "%s returned %d, vector lengths at its critical sections were %s" % (t[1], n, f["lens"])
     return None
